@@ -463,6 +463,16 @@ def c07(ctx):
     if not ctx.violations and summ["extra"]["accepted"] < 20:
         raise Infra("vacuous: hardly any request accepted")
     ctx.negctl_replay(["parser-replay"], summ["_first_edge"], flip_accept)
+    _, sl = ctx.tlc_pipe("MC_SizeLimits.tla", "MC_SizeLimits.cfg", ["sizelimits-replay"], workers=1,
+                         label="SizeLimits.tla: maximum operation size x maximum delta size, each at R-1 / R / R+1 / D-1 / D / D+1, for a delta "
+                               "smaller than the request and for one whose canonical form is larger than the request")
+    if not ctx.violations and sl["extra"]["accepted"] < 20:
+        raise Infra("vacuous: hardly any request accepted (size limits)")
+
+    def slwrong(rec):
+        rec["accept"] = not rec["accept"]
+
+    ctx.negctl_replay(["sizelimits-replay"], sl["_first_edge"], slwrong)
     n = 4000 if ctx.tier == "quick" else 60000
     validate_trace(ctx, "parser", ["-n", str(n)], "ParserRulesTrace.tla", "ParserRulesTrace.cfg",
                    "parser_trace.ndjson", histories=n, corrupt=corrupt_parse,
